@@ -57,6 +57,7 @@ SPAWN = [
     {"kind": "raise_on_cancel", "pauses": 1},
     {"kind": "slow_cancel", "pauses": 1},
     {"kind": "respawn", "pauses": 1},
+    {"kind": "queue", "pauses": 0},  # consumer of an AsyncQueue the body feeds in its last step
 ]
 
 
@@ -112,8 +113,8 @@ def programs(tier: str):
     # a disposable that spawns a task while entering, next to one that is still entering / fails:
     # the roll-back cancels that task too
     for other in ({"enter": "susp_ok", "exit": "ok", "yields": "none"}, {"enter": "susp_raise", "exit": "ok", "yields": "none"}, {"enter": "raise", "exit": "ok", "yields": "none"}, {"enter": "ok", "exit": "susp_ok", "yields": "none"}):
-        for first in (True, False):
-            sp = {"enter": "ok", "exit": "ok", "yields": "none", "spawn_in_enter": True}
+        for first, spawn_kind in ((True, "ret"), (False, "ret"), (True, "slow_cancel"), (False, "slow_cancel")):
+            sp = {"enter": "ok", "exit": "ok", "yields": "none", "spawn_in_enter": True, "spawn_kind": spawn_kind}
             disp = [sp, dict(other)] if first else [dict(other), sp]
             yield {"family": "scope", "block": {"kind": "ascope", "supply": ["A"], "disp": disp, "spawns": [], "pause": True, "ending": "return"}, "cancels": 1, "outer": False}
     # the cancellation injected between two iterations of the loop (not only when the loop has
